@@ -48,8 +48,12 @@ def render(case):
     sdl = []
     for e in range(1, nen + 1):
         sdl.append(f"enum E{e} {{ A{e} B{e} }}")
+    # (a non-null edge makes a cyclic input type invalid: InK! inside a cycle of non-null edges cannot be constructed; the
+    #  shapes below put "!" on list items / lists only, except shape 1 which is used for acyclic positions i < j)
     for i in range(1, nin + 1):
-        fields = ["  v: Int"] + [f"  r{j}: In{j}" for j in case["deps"][i - 1]]
+        # the edge In_i -> In_j is written with a different wrapper each time: plain, non-null, list, nested list
+        shape = ["In{j}", "In{j}!", "[In{j}!]", "[In{j}]!", "[[In{j}!]]"]
+        fields = ["  v: Int"] + [f"  r{j}: " + shape[((i + 2 * j) % len(shape)) if not ((i + 2 * j) % len(shape) == 1 and j <= i) else 0].format(j=j) for j in case["deps"][i - 1]]
         for n, e in enumerate(case["inEnums"][i - 1]):
             fields.append(f"  e{e}: E{e}" + (f" = A{e}" if n == 0 else ""))       # first one only as a default value user
         sdl.append(f"input In{i} {{\n" + "\n".join(fields) + "\n}")
